@@ -117,6 +117,22 @@ func TestExh_C17(t *testing.T) {
 		row = append(row, p)
 	}
 	run(C17Case{Kind: "reg", Peers: append(row, good), Events: evs})
+	// the form of a failing Configure / Synchronize answer: plain, each of the 16 non-OK
+	// status codes, every sentinel bare and wrapped; method or service not registered
+	for _, st := range []string{stallCfgErr, stallSyncErr} {
+		single(Peer{Name: "p", Idx: "10", Stall: st, ErrForm: "plain"})
+		for code := 1; code <= 16; code++ {
+			single(Peer{Name: "p", Idx: "10", Stall: st, ErrForm: "status", ErrCode: code})
+		}
+		for _, sn := range sentinelNames {
+			single(Peer{Name: "p", Idx: "10", Stall: st, ErrForm: "bare", ErrSentinel: sn})
+			single(Peer{Name: "p", Idx: "10", Stall: st, ErrForm: "wrap", ErrSentinel: sn})
+		}
+	}
+	for _, st := range []string{stallNoConfigure, stallNoSynchronize, stallNoService} {
+		single(Peer{Name: "p", Idx: "10", Stall: st})
+		single(Peer{Name: "p", Idx: "10", Mask: 1 << 2, Stall: st})
+	}
 	// peers that register several times on one connection: invalid attempts 60 ms apart, then
 	// silence / a disconnect / a valid registration clearly within or clearly after the timeout
 	tries := func(n int) []Reg {
